@@ -192,6 +192,9 @@ def replay(ctx, path):
     obj = json.load(open(path))
     rc = 0
     if obj.get("segment"):
+        for x in obj["segment"]:      # executions recorded before the hold generation existed
+            if x.get("e") == "s":
+                x.setdefault("hg", 0)
         seg = [json.dumps(x, separators=(",", ":")) for x in obj["segment"]]
         _, _, rej = validate_all(ctx, "NotifStreamTrace.tla", "NotifStreamTrace.cfg", seg)
         log("replay of recorded segment: %s" % ("rejected: %s" % rej[0].reason if rej else "accepted"))
